@@ -95,9 +95,19 @@ var typeShorthands = func() map[string]struct{} {
 	return result
 }()
 
+// writerGlobals are module-scope names the HLSL writer emits verbatim; a user
+// entity spelled the same would be redeclared or capture the writer's references.
+var writerGlobals = map[string]struct{}{
+	"nagaSamplerHeap":           {},
+	"nagaComparisonSamplerHeap": {},
+}
+
 // IsReserved checks if a name is an HLSL reserved keyword.
 func IsReserved(name string) bool {
 	if _, ok := reservedKeywords[name]; ok {
+		return true
+	}
+	if _, ok := writerGlobals[name]; ok {
 		return true
 	}
 	if _, ok := typeShorthands[name]; ok {
